@@ -156,6 +156,15 @@ func DigitsN(t *rapid.T, n, kind int, label string) string {
 		case 6:
 			fill(k, '9')
 		}
+	case 8: // a binary boundary (2^63, 2^64, 2^127, 2^128, +/-1) as leading digits, then a tail
+		pre := []string{"18446744073709551615", "18446744073709551616", "9223372036854775807", "9223372036854775808",
+			"340282366920938463463374607431768211455", "340282366920938463463374607431768211456", "170141183460469231731687303715884105727",
+			"4294967295", "4294967296", "18446744073709551614"}[Pick(t, 10, label+"bin")]
+		copy(b, randDigits(t, n, label))
+		if Pick(t, 2, label+"bintail") == 0 {
+			fill(0, []byte{'0', '9', '5'}[Pick(t, 3, label+"bt")])
+		}
+		copy(b, pre)
 	default:
 		copy(b, randDigits(t, n, label))
 	}
